@@ -420,9 +420,14 @@ func (m *Map) Range(f func(key, value any) bool) {
 type Pool struct {
 	noCopy [0]sync.Mutex
 	mu     sync.Mutex // real; only contended outside a simulation
-	items  []any
-	New    func() any
+	// fixed storage and manual loops: append growth and copy() carry race
+	// hooks inside the runtime even in norace functions
+	items [poolCap]any
+	n     int
+	New   func() any
 }
+
+const poolCap = 64
 
 func dataPtr(x any) unsafe.Pointer {
 	return (*[2]unsafe.Pointer)(unsafe.Pointer(&x))[1]
@@ -439,9 +444,10 @@ func (p *Pool) Put(x any) {
 		p.mu.Lock()
 	}
 	w := verifrt.W
-	if w.PoolPolicy != verifrt.PoolNew {
+	if w.PoolPolicy != verifrt.PoolNew && p.n < poolCap {
 		verifrt.RaceReleaseMerge(dataPtr(x))
-		p.items = append(p.items, x)
+		p.items[p.n] = x
+		p.n++
 	}
 	if !active {
 		p.mu.Unlock()
@@ -457,7 +463,7 @@ func (p *Pool) Get() any {
 	}
 	w := verifrt.W
 	var x any
-	n := len(p.items)
+	n := p.n
 	if n > 0 {
 		idx := -1
 		switch w.PoolPolicy {
@@ -469,7 +475,10 @@ func (p *Pool) Get() any {
 			idx = w.PoolT.Draw(n+1) - 1 // -1 = New
 		case verifrt.PoolDrop:
 			if w.PoolT.Draw(4) == 3 {
-				p.items = p.items[:0]
+				for i := 0; i < n; i++ {
+					p.items[i] = nil
+				}
+				p.n = 0
 				n = 0
 			} else {
 				idx = w.PoolT.Draw(n+1) - 1
@@ -477,9 +486,11 @@ func (p *Pool) Get() any {
 		}
 		if idx >= 0 && idx < n {
 			x = p.items[idx]
-			copy(p.items[idx:], p.items[idx+1:])
+			for i := idx; i < n-1; i++ {
+				p.items[i] = p.items[i+1]
+			}
 			p.items[n-1] = nil
-			p.items = p.items[:n-1]
+			p.n = n - 1
 			verifrt.RaceAcquire(dataPtr(x))
 			w.PoolReuse++
 		}
